@@ -242,6 +242,10 @@ def streams_for(prop, seed, tier, boost=1):
         add('split-ambiguity', genmod.split_ambiguity_stream())
         add('huffman-expanding-near-table-size', genmod.huffman_expanding_table_stream())
         add('table-big', big_table_stream())
+        add('copies', genmod.copy_stream(G('cp')))
+        add('evict-binary', genmod.evict_binary_stream())
+        add('whitespace-search', genmod.whitespace_search_stream())
+        add('small-sizes-allowed', genmod.small_sizes_allowed_stream())
         add('table-long-history', genmod.big_history_table_stream(4300))
         add('enc-failing', genmod.enc_fail_stream(G('ef'), n=15 * k))
         add('coincidences', genmod.coincidence_stream(G('co')))
@@ -277,6 +281,12 @@ def streams_for(prop, seed, tier, boost=1):
         add('failed-then-fresh', genmod.failed_then_fresh_stream())
         add('limits-interleaved', genmod.limit_interleaved_stream())
         add('utf8-tails', genmod.utf8_tail_stream()[0])
+        add('copies', genmod.copy_stream(G('cp')))
+        add('evict-binary', genmod.evict_binary_stream())
+        add('allowed-down-up', genmod.allowed_down_up_stream(G('adu')))
+        add('utf8-limits', genmod.utf8_limit_stream())
+        add('update-then-limit', genmod.update_then_limit_stream())
+        add('small-sizes-allowed', genmod.small_sizes_allowed_stream())
         add('static-entry-limits', genmod.static_entry_limit_stream())
         add('updates-then-never-indexed', genmod.updates_then_never_indexed_stream())
         add('huffman-expanding-near-table-size', genmod.huffman_expanding_table_stream())
@@ -295,6 +305,12 @@ def streams_for(prop, seed, tier, boost=1):
         add('high-index', genmod.high_index_limit_stream())
         add('dec-extra', genmod.dec_extra_catalogue(G('dx')))
         add('utf8-tails', genmod.utf8_tail_stream()[0])
+        add('copies', genmod.copy_stream(G('cp')))
+        add('evict-binary', genmod.evict_binary_stream())
+        add('utf8-limits', genmod.utf8_limit_stream())
+        add('update-then-limit', genmod.update_then_limit_stream())
+        add('small-sizes-allowed', genmod.small_sizes_allowed_stream())
+        add('allowed-down-up', genmod.allowed_down_up_stream(G('adu')))
         add('never-indexed-utf8', genmod.never_indexed_utf8_stream())
         add('limits-interleaved', genmod.limit_interleaved_stream())
         add('failed-then-fresh', genmod.failed_then_fresh_stream())
@@ -315,6 +331,11 @@ def streams_for(prop, seed, tier, boost=1):
         add('dec-update-runs', genmod.dec_updates_stream(G('du'), n=10 * k))
         add('dec-setters', genmod.dec_setter_stream(G('ds'), n=8 * k))
         add('raise-then-reference', genmod.raise_then_reference_stream())
+        add('utf8-limits', genmod.utf8_limit_stream())
+        add('update-then-limit', genmod.update_then_limit_stream())
+        add('small-sizes-allowed', genmod.small_sizes_allowed_stream())
+        add('allowed-down-up', genmod.allowed_down_up_stream(G('adu')))
+        add('evict-binary', genmod.evict_binary_stream())
         add('static-entry-limits', genmod.static_entry_limit_stream())
         add('updates-then-never-indexed', genmod.updates_then_never_indexed_stream())
         add('limits-interleaved', genmod.limit_interleaved_stream())
@@ -341,6 +362,13 @@ def streams_for(prop, seed, tier, boost=1):
             add('never-indexed-utf8', genmod.never_indexed_utf8_stream())
             add('updates-then-never-indexed', genmod.updates_then_never_indexed_stream())
         add('name-index-boundaries', genmod.name_index_boundary_stream())
+        add('copies', genmod.copy_stream(G('cp')))
+        add('direct-add', genmod.eadd_stream())
+        add('generator-assigns-size', genmod.eev_stream(G('ev')))
+        add('static-names-other-values', genmod.static_names_other_values_stream())
+        add('cross-encoder-sensitive', genmod.cross_encoder_sensitive_stream())
+        add('whitespace-search', genmod.whitespace_search_stream())
+        add('evict-binary', genmod.evict_binary_stream())
         ops_, groups_ = genmod.both_sensitivities_stream(G('bs'), n=6 * k)
         add('both-sensitivities', ops_)
     elif prop == 'C09':
@@ -351,6 +379,8 @@ def streams_for(prop, seed, tier, boost=1):
         add('coincidences', genmod.coincidence_stream(G('co')))
         add('call-orders', genmod.call_order_stream())
         add('enc-sizes-debuglog', genmod.with_debug_log(genmod.enc_size_stream(G('es2'), n=10 * k)))
+        add('copies', genmod.copy_stream(G('cp')))
+        add('generator-assigns-size', genmod.eev_stream(G('ev')))
         ops_, groups_ = genmod.dict_dupkey_stream()
         add('dict-and-generators', ops_)
     elif prop in ('C01', 'C10'):
@@ -365,6 +395,11 @@ def streams_for(prop, seed, tier, boost=1):
         add('conn-big-binary', genmod.big_binary_conn_stream(G('bb')))
         add('conn-power-lengths', genmod.power_length_conn_stream(full=T))
         add('name-index-boundaries', genmod.name_index_boundary_stream())
+        add('copies', genmod.copy_stream(G('cp')))
+        add('generator-assigns-size', genmod.eev_stream(G('ev')))
+        add('allowed-down-up', genmod.allowed_down_up_stream(G('adu')))
+        add('evict-binary', genmod.evict_binary_stream())
+        add('whitespace-search', genmod.whitespace_search_stream())
         zc = genmod.zero_carry_huffman_strings(70000 if T else 34000)
         add('conn-zero-carry', ['enew 35001', 'dnew 35001 100000000'] + [o for x in zc for o in ('eenc 35001 1 %s:%s:0' % (genmod.hx(b'z'), genmod.hx(x)), 'pipe 35001 1 35001')])
         add('coincidences', genmod.coincidence_stream(G('co')))
@@ -404,6 +439,8 @@ def streams_for(prop, seed, tier, boost=1):
         add('limits-interleaved', genmod.limit_interleaved_stream())
         ops_, groups_ = genmod.both_sensitivities_stream(G('bs'), n=4 * k)
         add('both-sensitivities', ops_)
+        add('copies', genmod.copy_stream(G('cp')))
+        add('cross-encoder-sensitive', genmod.cross_encoder_sensitive_stream())
     return out
 
 
